@@ -4,6 +4,7 @@ import (
 	"fmt"
 	"math/rand"
 	"os"
+	"os/exec"
 	"path/filepath"
 	"sort"
 
@@ -535,6 +536,25 @@ func (c *c03) Run(cs core.Case) core.Result {
 	}
 	if !allIdentical && sh.UnusableDataShardCount == 0 {
 		r.Count("all_slices_found_but_files_wrong", 1)
+	}
+	// What the command line tells the user about the same state.
+	if parExe := os.Getenv("VW_PAR_EXE"); parExe != "" && (p.Seed%7 == 0 || p.Kind == "fixed" || (!allIdentical && sh.UnusableDataShardCount == 0 && p.Seed%2 == 0)) {
+		cmd := exec.Command(parExe, "-g", "2", "v", env.idx)
+		out, _ := cmd.CombinedOutput()
+		status := cmd.ProcessState.ExitCode()
+		want := 0
+		if !allIdentical {
+			want = 1
+			if sc.total-len(sc.findable) > len(sc.exps) {
+				want = 2 // even a perfect scanner needs more blocks than there are
+			} else if sh.UnusableDataShardCount > len(sc.exps) {
+				want = status // the scanner's own shortfall (see C01/C16) is not judged here
+			}
+		}
+		r.Count("cli_verify_runs", 1)
+		if status != want {
+			r.Violate(fmt.Sprintf("cli-verify-status|want=%d|got=%d", want, status), "par v exits %d, expected %d (all files identical: %v; counts %+v); %v; output tail: %s", status, want, allIdentical, sh, sc.describe(), tailStr(string(out), 300))
+		}
 	}
 	if allIdentical {
 		r.Count("intact_sets", 1)
